@@ -19,10 +19,15 @@ import (
 // C09 — indeterminate storage outcomes are repaired, never mis-reported (fault enumeration)
 
 type c09Step struct {
-	W       *WOp   `json:"w,omitempty"`
-	Fault   string `json:"fault,omitempty"` // applied | notapplied : unknown-outcome answer on this write's storage commit
-	Wait    bool   `json:"wait,omitempty"`  // wait until the repair queue is empty
-	Compact bool   `json:"compact,omitempty"`
+	W     *WOp   `json:"w,omitempty"`
+	Fault string `json:"fault,omitempty"` // applied | notapplied : unknown-outcome answer on this write's storage commit
+	// FaultAt: which storage commit of the request is faulted (0 = first; 1 = second, which exists for a create that
+	// takes over a deletion record)
+	FaultAt int  `json:"fault_at,omitempty"`
+	Wait    bool `json:"wait,omitempty"` // wait until the repair queue is empty
+	// RetryOnce runs one round of the repair loop (it stops at the first entry whose repair fails)
+	RetryOnce bool `json:"retry_once,omitempty"`
+	Compact   bool `json:"compact,omitempty"`
 }
 
 type c09Case struct {
@@ -56,6 +61,9 @@ func genC09(t *rapid.T) interface{} {
 		s := c09Step{W: op}
 		if !c.Enumerate && faults < 2 && DrawBool(t, 30, "fault") {
 			s.Fault = rapid.SampledFrom([]string{"applied", "applied", "notapplied"}).Draw(t, "variant")
+			if op.Kind == "create" && DrawBool(t, 50, "secondCommit") {
+				s.FaultAt = 1
+			}
 			faults++
 		}
 		c.Steps = append(c.Steps, s)
@@ -67,11 +75,30 @@ func genC09(t *rapid.T) interface{} {
 		if DrawBool(t, 15, "wait") {
 			c.Steps = append(c.Steps, c09Step{Wait: true})
 		}
+		if !c.Timed && DrawBool(t, 12, "retryOnce") {
+			c.Steps = append(c.Steps, c09Step{RetryOnce: true})
+		}
 		if DrawBool(t, 15, "compact") {
 			c.Steps = append(c.Steps, c09Step{Compact: true})
 		}
 	}
 	c.RepairFault = rapid.SampledFrom([]string{"", "", "", "applied", "notapplied", "error"}).Draw(t, "repairFault")
+	if !c.Timed && !c.Enumerate && DrawBool(t, 15, "scenario") {
+		// two unknown-outcome writes pending (the older one a write that landed), the older one's repair fails, one
+		// repair round, then a compaction while the younger entry is still queued, then more history
+		k := DrawIntn(t, nk, "skey")
+		first := rapid.SampledFrom([]string{"delete", "delete", "update"}).Draw(t, "sfirst")
+		pre := []c09Step{{W: &WOp{Kind: "create", K: k}}, {Wait: true},
+			{W: &WOp{Kind: first, K: k, Exp: "ok"}, Fault: "applied"},
+			{W: &WOp{Kind: "create", K: (k + 1) % nk, V: 1}, Fault: rapid.SampledFrom([]string{"applied", "notapplied"}).Draw(t, "ssecond")},
+			{RetryOnce: true}, {Compact: true}}
+		c.Steps = append(pre, c.Steps...)
+		for i := range c.Steps[len(pre):] {
+			c.Steps[len(pre)+i].Fault = ""
+		}
+		c.RepairFault = rapid.SampledFrom([]string{"error", "notapplied"}).Draw(t, "srepair")
+		c.Race = ""
+	}
 	if !c.Timed {
 		c.Race = rapid.SampledFrom([]string{"", "", "update", "delete"}).Draw(t, "race")
 	}
@@ -86,7 +113,12 @@ type c09Pending struct {
 }
 
 // c09Exec runs one fault assignment (faults[i] for the i-th write step; "" = none)
-func c09Exec(c *c09Case, faults map[int]string, st *CaseStats) (rewrites int, repairFaulted bool, err error) {
+type c09F struct {
+	variant string
+	at      int
+}
+
+func c09Exec(c *c09Case, faults map[int]c09F, st *CaseStats) (rewrites int, repairFaulted bool, err error) {
 	if c.Timed {
 		backend.SetRetryIntervalsForVerif(20*time.Millisecond, 4*time.Millisecond)
 	} else {
@@ -106,8 +138,10 @@ func c09Exec(c *c09Case, faults map[int]string, st *CaseStats) (rewrites int, re
 	env.Ctx = ctx
 	shim := env.Shim
 	var mu sync.Mutex
-	armed := ""         // variant for the next client commit
-	var armedRev uint64 // revision stamped on the faulted commit
+	armed := ""             // variant for the armed client commit
+	armedAt := 0            // which commit of the request (counted from arming)
+	var unresolved []uint64 // revisions of unknown-outcome commits not known to be resolved (harness bookkeeping)
+	var armedRev uint64     // revision stamped on the faulted commit
 	armedApplied := false
 	answeredUnknown := false // the engine really answered 'outcome unknown' to the armed commit
 	repairArmed := c.RepairFault
@@ -159,6 +193,10 @@ func c09Exec(c *c09Case, faults map[int]string, st *CaseStats) (rewrites int, re
 			}
 			return Pass
 		}
+		if armed != "" && armedAt > 0 {
+			armedAt--
+			return Pass
+		}
 		if armed != "" {
 			v := armed
 			armed = ""
@@ -195,31 +233,8 @@ func c09Exec(c *c09Case, faults map[int]string, st *CaseStats) (rewrites int, re
 		return 0, false, fmt.Errorf("watch: %v", err)
 	}
 	var pendings []*c09Pending
-	waitDrain := func() error {
-		deadline := time.Now().Add(10 * time.Second)
-		// an unknown-outcome write is queued when the sequencer consumes its revision: wait for that first
-		if err := env.Settle(); err != nil {
-			return err
-		}
-		if !c.Timed {
-			// a faulted repair write re-enqueues itself: repeat until the queue is empty
-			for i := 0; i < 8 && backend.RetryQueueLenForVerif(env.B) > 0; i++ {
-				if err := env.Settle(); err != nil {
-					return err
-				}
-				backend.RetryNowForVerif(env.B)
-				WaitCommitted(env.B, env.B.GetCurrentRevision()+0, time.Second)
-				time.Sleep(200 * time.Microsecond)
-			}
-		}
-		for backend.RetryQueueLenForVerif(env.B) > 0 {
-			if time.Now().After(deadline) {
-				return fmt.Errorf("the repair queue did not drain within 10s (%d entries, oldest revision %d)", backend.RetryQueueLenForVerif(env.B), backend.RetryMinRevisionForVerif(env.B))
-			}
-			time.Sleep(time.Millisecond)
-		}
-		time.Sleep(2 * time.Millisecond) // the rewrite's own outcome is reported right after the pop
-		// reconcile the model with repairs that happened
+	// reconcile the model with repairs that have happened so far (rewrites move a landed write to a fresh revision)
+	reconcile := func() error {
 		for _, p := range pendings {
 			latest, ok := env.M.Latest(p.key)
 			if !ok || latest.Rev != p.rev {
@@ -248,14 +263,73 @@ func c09Exec(c *c09Case, faults map[int]string, st *CaseStats) (rewrites int, re
 				if g.Kv.Revision > env.LastRev {
 					env.LastRev = g.Kv.Revision
 				}
+				p.rev = g.Kv.Revision // a faulted rewrite may be rewritten once more
 			}
 		}
+		return nil
+	}
+	waitDrain := func() error {
+		deadline := time.Now().Add(10 * time.Second)
+		// an unknown-outcome write is queued when the sequencer consumes its revision: wait for that first
+		if err := env.Settle(); err != nil {
+			return err
+		}
+		if !c.Timed {
+			// a faulted repair write re-enqueues itself: repeat until the queue is empty
+			for i := 0; i < 8 && backend.RetryQueueLenForVerif(env.B) > 0; i++ {
+				if err := env.Settle(); err != nil {
+					return err
+				}
+				backend.RetryNowForVerif(env.B)
+				WaitCommitted(env.B, env.B.GetCurrentRevision()+0, time.Second)
+				time.Sleep(200 * time.Microsecond)
+			}
+		}
+		for backend.RetryQueueLenForVerif(env.B) > 0 {
+			if time.Now().After(deadline) {
+				return fmt.Errorf("the repair queue did not drain within 10s (%d entries, oldest revision %d)", backend.RetryQueueLenForVerif(env.B), backend.RetryMinRevisionForVerif(env.B))
+			}
+			time.Sleep(time.Millisecond)
+		}
+		time.Sleep(2 * time.Millisecond) // the rewrite's own outcome is reported right after the pop
+		if err := reconcile(); err != nil {
+			return err
+		}
 		pendings = nil
+		unresolved = nil
 		return nil
 	}
 	wi := 0
 	for si, s := range c.Steps {
 		switch {
+		case s.RetryOnce:
+			if c.Timed {
+				continue
+			}
+			if err := env.Settle(); err != nil {
+				return rewrites, repairFaulted, fmt.Errorf("step %d: %v", si, err)
+			}
+			before := backend.RetryQueueLenForVerif(env.B)
+			backend.RetryNowForVerif(env.B)
+			time.Sleep(200 * time.Microsecond)
+			_ = env.Settle()
+			after := backend.RetryQueueLenForVerif(env.B)
+			switch {
+			case after == 0:
+				// everything was repaired or dropped: reconcile as a full wait does
+				if err := waitDrain(); err != nil {
+					return rewrites, repairFaulted, fmt.Errorf("step %d: %v", si, err)
+				}
+			default:
+				_ = before
+				unresolved = nil // a repair round ran: the harness can no longer tell which entries remain queued
+			}
+			if after != 0 {
+				if err := reconcile(); err != nil {
+					return rewrites, repairFaulted, fmt.Errorf("step %d: %v", si, err)
+				}
+			}
+			st.Label("retry-once")
 		case s.Wait:
 			if err := waitDrain(); err != nil {
 				return rewrites, repairFaulted, fmt.Errorf("step %d: %v", si, err)
@@ -269,6 +343,19 @@ func c09Exec(c *c09Case, faults map[int]string, st *CaseStats) (rewrites int, re
 			if err != nil {
 				return rewrites, repairFaulted, fmt.Errorf("step %d: compact: %v", si, err)
 			}
+			// the harness's own view of what is unresolved (independent of the queue's idea of its head)
+			if !c.Timed && len(unresolved) > 0 {
+				oldest := unresolved[0]
+				for _, u := range unresolved {
+					if u < oldest {
+						oldest = u
+					}
+				}
+				if resp.Header.Revision >= oldest {
+					return rewrites, repairFaulted, fmt.Errorf("step %d: compaction advanced to %d although the unknown-outcome write stamped %d has not been resolved (unresolved: %v)", si, resp.Header.Revision, oldest, unresolved)
+				}
+				st.Label("compact-while-unresolved")
+			}
 			minAfter := backend.RetryMinRevisionForVerif(env.B)
 			if minBefore != 0 && minBefore == minAfter {
 				st.Label("compact-while-queue-nonempty")
@@ -277,7 +364,8 @@ func c09Exec(c *c09Case, faults map[int]string, st *CaseStats) (rewrites int, re
 				}
 			}
 		case s.W != nil:
-			variant := faults[wi]
+			f := faults[wi]
+			variant := f.variant
 			wi++
 			if variant == "" {
 				if _, err := env.DoWrite(*s.W); err != nil {
@@ -292,7 +380,7 @@ func c09Exec(c *c09Case, faults map[int]string, st *CaseStats) (rewrites int, re
 			key := keys[op.K%len(keys)]
 			val := MakeValue(op.V, env.Attempts+1)
 			mu.Lock()
-			armed, armedRev, armedApplied, answeredUnknown = variant, 0, false, false
+			armed, armedAt, armedRev, armedApplied, answeredUnknown = variant, f.at, 0, false, false
 			mu.Unlock()
 			env.TolerateErr = func(WOp, error) bool {
 				mu.Lock()
@@ -317,6 +405,10 @@ func c09Exec(c *c09Case, faults map[int]string, st *CaseStats) (rewrites int, re
 				return rewrites, repairFaulted, fmt.Errorf("step %d: the engine answered 'outcome unknown' to %s(%q, exp=%d) but the client got a definite answer (%s) instead of an error", si, op.Kind, key, res.Exp, res.Outcome)
 			}
 			st.Label("fault:" + variant)
+			if f.at > 0 {
+				st.Label("fault-on-second-commit-of-a-create")
+			}
+			unresolved = append(unresolved, stamped)
 			if stamped > env.LastRev {
 				env.LastRev = stamped
 			}
@@ -409,12 +501,12 @@ func runC09(ci interface{}, st *CaseStats) error {
 		}
 	}
 	if !c.Enumerate {
-		faults := map[int]string{}
+		faults := map[int]c09F{}
 		wi := 0
 		for _, s := range c.Steps {
 			if s.W != nil {
 				if s.Fault != "" {
-					faults[wi] = s.Fault
+					faults[wi] = c09F{s.Fault, s.FaultAt}
 				}
 				wi++
 			}
@@ -438,14 +530,35 @@ func runC09(ci interface{}, st *CaseStats) error {
 	// enumerate every single-fault placement x variant
 	st.Label("mode:enumerate-single-faults")
 	nt := false
+	var kinds []string
+	for _, s := range c.Steps {
+		if s.W != nil {
+			kinds = append(kinds, s.W.Kind)
+		}
+	}
+	type place struct {
+		p  int
+		v  string
+		at int
+	}
+	var places []place
 	for p := 0; p < nWrites; p++ {
 		for _, v := range []string{"applied", "notapplied"} {
-			rw, rf, err := c09Exec(c, map[int]string{p: v}, st)
+			places = append(places, place{p, v, 0})
+			if kinds[p] == "create" {
+				places = append(places, place{p, v, 1}) // the second commit of a create over a deletion record
+			}
+		}
+	}
+	for _, pl := range places {
+		{
+			p, v := pl.p, pl.v
+			rw, rf, err := c09Exec(c, map[int]c09F{p: {v, pl.at}}, st)
 			if err != nil {
 				if _, inc := err.(*Inconclusive); inc {
 					return err
 				}
-				return fmt.Errorf("fault %s on write #%d: %v", v, p, err)
+				return fmt.Errorf("fault %s on write #%d (commit %d): %v", v, p, pl.at, err)
 			}
 			st.Count("fault_placements", 1)
 			if rw > 0 {
